@@ -39,12 +39,19 @@ def types_program(types):
             ex.append(Method("exec", "p%d" % k, (Arg("a", ty), Arg("b1", ty))))
             if k % 2 == 0:
                 qs.append(Method("query", "p%d" % k, (Arg("x_y", ty), Arg("_c", ty))))
+    # identity queries: the caller must get the JSON encoding of exactly the returned value, whatever its type
+    idq = [Method("query", "id%d" % k, (Arg("a", ty),), qret=ty, body="{ Ok(a) }") for k, (ty, vals) in enumerate(types)]
+    qs.extend(Method("query", "iid%d" % k, (Arg("a", ty),), qret=ty, body="{ Ok(a) }") for k, (ty, vals) in enumerate(types) if k % 4 == 1)
     ex.append(Method("exec", "q0", (Arg("a", "u32"), Arg("b1", "String"), Arg("_c", "u32"))))
     ex.append(Method("exec", "q1", (Arg("x_y", "String"), Arg("r#type", "u32"), Arg("msg", "String"))))
     ss.append(Method("sudo", "q2", (Arg("msg", "u32"), Arg("a", "u32"), Arg("b1", "u32"))))
     ms = [Method("instantiate", "inst", (Arg("a", "u32"), Arg("b1", "String"), Arg("r#type", "Inner"))),
           Method("migrate", "mig", (Arg("x_y", "Option<u32>"), Arg("msg", "Vec<String>")))]
-    return Contract(methods=tuple(ms + ex), interfaces=(iface(0, qs), iface(1, ss)), entry_points="")
+    return Contract(methods=tuple(ms + ex + idq), interfaces=(iface(0, qs), iface(1, ss)), entry_points="")
+
+
+def is_identity(m):
+    return m.kind == "query" and m.body == "{ Ok(a) }"
 
 
 def error_program():
